@@ -21,6 +21,11 @@ CLAIMED = {
     text='TLC generates Sp(2n,F2) as a state machine (closure under all transvections), checks the symplectic condition and the two-sided closed-form inverse in every state and that the number of states equals the order formula (n=1,2 also against a brute-force count over all binary matrices; n=3 in thorough). The real from_int_tuple/to_int_tuple/inverse are then driven over the COMPLETE mixed-radix index domain in lexicographic order and the recorded trace is validated by TLC (successor tuple, symplectic image, left inverse, two-sided inverse): with |domain| = |group| this is bijectivity. Every symplectic matrix of the model is mapped back to an index; find_transvection is validated on every ordered pair of non-zero vectors.',
     note='Trusted: TLC/SANY, JSON trace encoding (rows packed as integers < 2^20). Complete for n<=2 (quick), n<=3 enumeration and n<=4 vector pairs (thorough); random tuples to n=10.',
     technique='TLA+ spec of Sp(2n,F2) + TLC exhaustive group generation; TLC trace validation of the complete recorded enumeration'),
+ 'C19': dict(
+    cat='model_checking', ref='6/C19',
+    text='For each shipped code the encoder gate list is read from the live object and handed to TLC as the program: TLC derives the stabilizer generators with the Clifford tableau, decides Knill-Laflamme for EVERY Pauli error of weight 1..d-1 (one state per error; pull-back rule cross-checked against the textbook commutation/group-membership formulation), and decides that each listed stabilizer string lies in +<S>. The real code words, knill_laflamme_inner_product on make_error_list, the shipped stabilizer circuits, make_error_list / make_asymmetric_error_set (n<=6, d<=4, four Z-weights) and quantum_weight_enumerator are then compared with / validated by TLC against those decisions (full <i|E|j> matrices incl. weight-d errors that violate KL).',
+    note='Trusted: TLC/SANY, gate-tableaux derivation (MC_CliffordGates), state-vector comparisons at 1e-9; listed strings are read from the source text of generate_code*. (11,2,5) only in thorough.',
+    technique='TLA+ stabilizer-code spec on the Clifford tableau; TLC exhaustive enumeration of the error set per code; TLC trace validation of recorded error sets, KL matrices and weight enumerators'),
 }
 
 NOT_APPLICABLE = {
